@@ -705,6 +705,10 @@ func runC05(c *core.Ctx) {
 	ruleAdvertisedSignature(c, typeIface)
 	c.Doc("C05.proxy-body", "the generated proxy passes one argument per parameter in order", 1)
 	ruleProxyBody(c, typeIface)
+	c.Doc("C05.name-space", "method, signal and property names of one interface are made unique within one set", 1)
+	ruleOneNameSpace(c, "C05.name-space")
+	c.Doc("C05.mode-flag", "a generator mode flag read by an emitter is lowered again before the declarations shared by both halves are rendered", 1)
+	ruleModeFlagScoped(c, "C05.mode-flag")
 	c.Doc("C05.proxy-resolve", "the generic proxy resolves a call by method name and parameter signature (overloads kept apart)", 2)
 	ruleProxyResolvesBySignature(c, "C05.proxy-resolve")
 	// the signal helpers the stubs generate end in signalHandler.UpdateSignal (rule shared with C13)
@@ -1164,4 +1168,163 @@ func elementNamedByContainer(p *packages.Package, fd *ast.FuncDecl) string {
 		inFor(fd.Body, false)
 	}
 	return bad
+}
+
+// ruleModeFlagScoped: a package-level boolean that an emitter of the generator
+// reads (idl.InterfaceTypeForStub: "render the stub flavour of this type") is a
+// mode of the whole process.  The function that raises it lowers it again
+// before the declarations shared by both halves are rendered
+// (TypeSet.Declare, jen's File.Render): a flag still raised there — reset by a
+// defer, or after the loop — puts the stub's decoding of an object reference
+// (which names the stub's receiver) into the proxy half.
+func ruleModeFlagScoped(c *core.Ctx, rule string) {
+	// mode flags: boolean globals of the generator read by a function that returns generated code
+	flags := map[*ssa.Global]bool{}
+	for _, fn := range c.RepoFuncs("meta") {
+		if c.IsTestFile(fn) {
+			continue
+		}
+		res := fn.Signature.Results()
+		emits := false
+		for i := 0; i < res.Len(); i++ {
+			if strings.HasSuffix(res.At(i).Type().String(), "jen.Statement") {
+				emits = true
+			}
+		}
+		if !emits {
+			continue
+		}
+		for _, f := range core.AnonFuncs(fn) {
+			for _, b := range f.Blocks {
+				for _, in := range b.Instrs {
+					if ld, ok := in.(*ssa.UnOp); ok && ld.Op == token.MUL {
+						if g, ok := ld.X.(*ssa.Global); ok && types.Identical(ld.Type().Underlying(), types.Typ[types.Bool]) && strings.HasPrefix(g.Pkg.Pkg.Path(), core.Module) {
+							flags[g] = true
+						}
+					}
+				}
+			}
+		}
+	}
+	if len(flags) == 0 {
+		c.PassTrivial(rule, "generator", token.NoPos, "no emitter of the generator reads a package-level mode flag")
+		return
+	}
+	isRenderer := func(call ssa.CallInstruction) bool {
+		f := core.StaticCallee(call)
+		if f == nil || f.Signature.Recv() == nil {
+			return false
+		}
+		rt := f.Signature.Recv().Type().String()
+		return (f.Name() == "Declare" && strings.HasSuffix(rt, "signature.TypeSet")) || (f.Name() == "Render" && strings.HasSuffix(rt, "jen.File"))
+	}
+	n := 0
+	for g := range flags {
+		storeOf := func(in ssa.Instruction, want bool) bool {
+			st, ok := in.(*ssa.Store)
+			if !ok || st.Addr != ssa.Value(g) {
+				return false
+			}
+			k, isK := core.ConstBool(st.Val)
+			if !isK {
+				return want // a computed value may be either
+			}
+			return k == want
+		}
+		for _, fn := range c.RepoFuncs("meta") {
+			if c.IsTestFile(fn) || fn.Name() == "init" {
+				continue
+			}
+			for _, b := range fn.Blocks {
+				for _, in := range b.Instrs {
+					if !storeOf(in, true) {
+						continue
+					}
+					n++
+					key := fmt.Sprintf("%s@%s", g.Name(), core.FuncKey(fn))
+					if fn.Parent() != nil {
+						c.Fail(rule, key, in.Pos(), "the mode flag "+g.Name()+" is raised inside a function literal: where it is lowered again cannot be followed")
+						continue
+					}
+					reach := core.ReachFrom(core.After(in), func(x ssa.Instruction) bool { return storeOf(x, false) }, nil)
+					bad := ""
+					for _, call := range core.Calls(fn) {
+						if isRenderer(call) && reach.Has(call.(ssa.Instruction)) {
+							bad = "the mode flag " + g.Name() + " raised at " + c.Pos(in.Pos()) + " can still be raised when the declarations shared by both halves are rendered (at " + c.Pos(call.Pos()) + "): the stub flavour of a type's decoder, which names the stub's receiver, is emitted into the proxy half — the generated package does not compile for an interface carried by a signal or property"
+						}
+					}
+					c.Check(bad == "", rule, key, in.Pos(), "lowered again on every path before the shared declarations are rendered", bad)
+				}
+			}
+		}
+	}
+	if n == 0 {
+		c.PassTrivial(rule, "generator", token.NoPos, "the mode flags of the emitters are never raised")
+	}
+}
+
+// ruleOneNameSpace: the names the generator gives to the methods, signals and
+// properties of one interface are made unique within ONE set: the generated
+// proxy turns a signal X and a property X both into SubscribeX, so separate
+// sets let two declarations of the same Go method through and the generated
+// package does not compile.
+func ruleOneNameSpace(c *core.Ctx, rule string) {
+	fn := c.Func("type/object", "MetaObject", "ForEachMethodAndSignal")
+	if fn == nil {
+		c.Undecided(rule, "type/object.MetaObject.ForEachMethodAndSignal", token.NoPos, "anchor not found")
+		return
+	}
+	var sets []ssa.Value
+	var helper *ssa.Function
+	// the set as the entry point sees it: a parameter of a private helper
+	// (forEachSignal(names, …)) stands for what its call sites pass
+	var roots func(v ssa.Value, depth int) []ssa.Value
+	roots = func(v ssa.Value, depth int) []ssa.Value {
+		v = core.Canon(v)
+		p, isP := v.(*ssa.Parameter)
+		if !isP || depth > 3 || p.Parent() == fn || !isPrivateHelper(c, p.Parent()) {
+			return []ssa.Value{v}
+		}
+		all, _ := c.CallSites()
+		var out []ssa.Value
+		for _, cs := range all[p.Parent()] {
+			for i, q := range p.Parent().Params {
+				if q == p && i < len(cs.Common().Args) {
+					out = append(out, roots(cs.Common().Args[i], depth+1)...)
+				}
+			}
+		}
+		if len(out) == 0 {
+			return []ssa.Value{v}
+		}
+		return out
+	}
+	for _, f := range unitOf(c, fn) {
+		for _, call := range core.Calls(f) {
+			h := core.StaticCallee(call)
+			if h == nil || !isPrivateHelper(c, h) || len(call.Common().Args) != 2 || h.Signature.Recv() != nil {
+				continue
+			}
+			if _, isMap := call.Common().Args[1].Type().Underlying().(*types.Map); !isMap {
+				continue
+			}
+			if bt, isB := call.Common().Args[0].Type().Underlying().(*types.Basic); !isB || bt.Kind() != types.String {
+				continue
+			}
+			helper = h
+			sets = append(sets, roots(call.Common().Args[1], 0)...)
+		}
+	}
+	if len(sets) < 3 {
+		c.Undecided(rule, "type/object.MetaObject.ForEachMethodAndSignal", fn.Pos(), "the three calls that make a member name unique were not found")
+		return
+	}
+	same := true
+	for _, s := range sets[1:] {
+		if s != sets[0] {
+			same = false
+		}
+	}
+	c.Check(same, rule, "type/object.MetaObject.ForEachMethodAndSignal/one-set", fn.Pos(), fmt.Sprintf("%d calls of %s share one set of names", len(sets), helper.Name()),
+		"the names of methods, signals and properties are made unique in separate sets: a signal and a property (or a method) of the same name both get the Go name the generator derives from it (SubscribeX), and the generated package declares it twice")
 }
